@@ -49,7 +49,7 @@ WHITELIST = set("""sin cos tan asin acos atan atan2 sinh cosh tanh asinh acosh a
 erfc tgamma lgamma sqrt cbrt pow fmax fmin INFINITY NAN HUGE_VAL x y z w ab""".split())
 WHITELIST_F = set((n + "f") for n in """sin cos tan asin acos atan atan2 sinh cosh tanh asinh acosh atanh log exp fabs
 floor ceil trunc erf erfc tgamma lgamma sqrt cbrt pow fmax fmin""".split()) | {"INFINITY", "NAN", "x", "y", "z", "w", "ab"}
-POINTS = [(0.7, 1.3, 2.1, 0.4, 3.2), (1.9, 0.6, 0.3, 2.7, 1.1), (-0.8, 2.4, -1.6, 0.9, -2.2)]
+POINTS = [(0.71, 1.37, 2.13, 0.43, 3.19), (1.93, 0.61, 0.29, 2.71, 1.13), (-0.83, 2.41, -1.57, 0.93, -2.19)]
 
 
 # ------------------------------------------------------------------ generators
@@ -276,7 +276,7 @@ C_HEAD = r"""#define _POSIX_C_SOURCE 200809L
 static sigjmp_buf jb;
 static void on_fpe(int s) { (void)s; siglongjmp(jb, 1); }
 static void out(int id, int k, double r) { unsigned long long u; memcpy(&u, &r, 8); printf("%d %d %016llx\n", id, k, u); }
-static const double P[3][5] = {{0.7, 1.3, 2.1, 0.4, 3.2}, {1.9, 0.6, 0.3, 2.7, 1.1}, {-0.8, 2.4, -1.6, 0.9, -2.2}};
+static const double P[3][5] = {{0.71, 1.37, 2.13, 0.43, 3.19}, {1.93, 0.61, 0.29, 2.71, 1.13}, {-0.83, 2.41, -1.57, 0.93, -2.19}};
 """
 
 
@@ -527,6 +527,8 @@ def explore(ctx, drv, model, cases, search=False):
                     key = "C15/integer-literal-too-large"
                 if kind == "d" and key == "C15/wrong-value" and c != "FPE" and math.isinf(c) and "e+308" in text:
                     key = "C15/double-max-prints-as-inf"
+                if key in ("C15/wrong-value", "C15/float-wrong-value") and "cbrt" in text:
+                    key = "C15/cbrt-negative-base"
                 ctx.violation(key,
                               "`%s`: the emitted C `%s` compiled by gcc evaluates to %r at %s = %s, the expression's value is %r" % (
                                   r["recipe"], text[:120], c, "(x,y,z,w,ab)", POINTS[k], ref), rep)
